@@ -102,6 +102,7 @@ pub fn utf8_maybe(rng: &mut Rng) -> Vec<u8> {
 }
 
 pub const SIZES: &[usize] = &[0, 1, 2, 5, 124, 125, 126, 127, 128, 300];
+pub const SMALL_SIZES: &[usize] = &[0, 1, 2, 5, 60, 124, 125];
 pub const BIG_SIZES: &[usize] =
     &[0, 1, 125, 126, 127, 4095, 4096, 4097, 65535, 65536, 65537, 70000];
 
@@ -252,19 +253,21 @@ pub fn gen_cfg(rng: &mut Rng, prof: Profile) -> CaseCfg {
     let rbuf = *rng.pick(&[0usize, 1, 7, 64, 4096, 131072]);
     let (wbuf, maxw): (usize, Option<usize>) = match prof {
         Profile::Backpressure => {
+            // the maximum always holds the largest single frame of the profile (125 + 14 bytes)
             let w = *rng.pick(&[0usize, 1, 5, 20, 100]);
             let m = match rng.below(4) {
                 0 => None,
-                1 => Some(w + 1 + rng.below(4)),
-                2 => Some(w + 8 + rng.below(30)),
-                _ => Some(w + 140),
+                1 => Some(140 + rng.below(4)),
+                2 => Some(150 + rng.below(60)),
+                _ => Some(w + 280),
             };
             (w, m)
         }
         Profile::Sizes => (*rng.pick(&[0usize, 1, 4096, 131072]), None),
         _ => {
             let w = *rng.pick(&[0usize, 0, 1, 10, 100, 131072]);
-            let m = if rng.chance(1, 4) { Some(w + 1 + rng.below(200)) } else { None };
+            // at least the largest single frame used by these profiles (300 + 14 bytes)
+            let m = if rng.chance(1, 4) { Some(w + 320 + rng.below(200)) } else { None };
             (w, m)
         }
     };
@@ -373,7 +376,11 @@ pub fn gen_endpoint(rng: &mut Rng, prof: Profile, id: usize) -> Vec<String> {
     let cc = gen_cfg(rng, prof);
     let pg = PeerGen { mask_frames: !cc.client };
     let mut lines = vec![format!("case endpoint {prof:?}-{id}")];
-    let sizes: &[usize] = if prof == Profile::Sizes { BIG_SIZES } else { SIZES };
+    let sizes: &[usize] = match prof {
+        Profile::Sizes => BIG_SIZES,
+        Profile::Backpressure => SMALL_SIZES,
+        _ => SIZES,
+    };
     let text_kind: u8 = if prof == Profile::Utf8 || prof == Profile::Codec { 1 } else { 0 };
 
     // possibly start with pre-read bytes
